@@ -455,7 +455,10 @@ class BasicVisitor(NodeVisitor):
         unsigned = num_literal.lstrip("+-")
         signs = num_literal[: len(num_literal) - len(unsigned)]
         sign = "-" if signs.count("-") % 2 else ""
-        return BasicLiteral(float(sign + unsigned))
+        mantissa, _, exponent = unsigned.partition("E")
+        mantissa = "0" if mantissa == "." else mantissa
+        exponent = "0" if exponent in ("", "+", "-") else exponent
+        return BasicLiteral(float(f"{sign}{mantissa}E{exponent}"))
 
     def visit_int_literal(self, node, visited_children):
         num_literal = node.full_text[node.start : node.end].replace(" ", "")
